@@ -26,6 +26,9 @@ type C18Case struct {
 	OutFile  bool
 	// StaleOutFile: the -f file already exists (left by an earlier, longer report)
 	StaleOutFile bool `json:",omitempty"`
+	// SelfDiff: diff of the directory with itself: 1 = the same path twice, 2 = the second time with a trailing
+	// separator, 3 = a directory that does not exist, given twice
+	SelfDiff int `json:",omitempty"`
 }
 
 func genC18(t *rapid.T) *C18Case {
@@ -68,6 +71,9 @@ func genC18(t *rapid.T) *C18Case {
 			c.B = GenWorld(t, GenCfg{NoNamedRisk: true})
 		} else {
 			c.B = editWorld(t, c.A)
+		}
+		if rapid.IntRange(0, 4).Draw(t, "selfdiff") == 0 {
+			c.SelfDiff = rapid.IntRange(1, 3).Draw(t, "selfdiffkind")
 		}
 	}
 	c.Fail = rapid.IntRange(0, 3).Draw(t, "fail") == 0
@@ -124,7 +130,20 @@ func checkC18(c *C18Case, st *VStats) *VFailure {
 	} else {
 		dirB := c.B.WriteDir()
 		defer os.RemoveAll(dirB)
-		d := RunDiff(dir, dirB, DiffOpts{Format: c.Format, StopOnError: c.Fail, WantOutput: true})
+		dir1 := dir
+		switch c.SelfDiff {
+		case 1:
+			dirB = dir
+		case 2:
+			dirB = dir + string(os.PathSeparator)
+		case 3:
+			dir1 = filepath.Join(dir, "no-such-subdir")
+			dirB = dir1
+		}
+		if c.SelfDiff != 0 {
+			st.Class("diff of a directory with itself")
+		}
+		d := RunDiff(dir1, dirB, DiffOpts{Format: c.Format, StopOnError: c.Fail, WantOutput: true})
 		if d.Panic != nil {
 			return &VFailure{Msg: fmt.Sprintf("diff panicked: %v", d.Panic), Sig: "panic"}
 		}
@@ -132,7 +151,7 @@ func checkC18(c *C18Case, st *VStats) *VFailure {
 		if libErr == nil {
 			libErr = d.OutErr
 		}
-		args = []string{"diff", "--dir1", dir, "--dir2", dirB, "-o", c.Format}
+		args = []string{"diff", "--dir1", dir1, "--dir2", dirB, "-o", c.Format}
 	}
 	if c.Fail {
 		args = append(args, "--fail")
